@@ -102,6 +102,8 @@ const (
 	E_LS2Validate = 180
 	E_NewLS2Check = 181
 	E_NewELSCheck = 182
+	E_ConstructSPK = 183
+	E_ConstructPK = 184
 )
 
 var entryNames = map[int]string{
@@ -205,4 +207,6 @@ var entryNames = map[int]string{
 	180: "LS2Validate",
 	181: "NewLS2Check",
 	182: "NewELSCheck",
+	183: "ConstructSPK",
+	184: "ConstructPK",
 }
